@@ -309,6 +309,8 @@ def _worker(a):
             sb.kill()
         raise
     res["stats"]["probes"] = nprobes
+    res["sample"] = {"edits": [ks for _, _, ks in chain[1:]], "old_config": cfgs[0].text("<moddir>"), "new_config": cfgs[-1].text("<moddir>"),
+                     "probe_conversation_head": conv_a[:12]}
     if not ra.clean() or not rb.clean():
         res["inconc"].append("daemon unclean (%s / %s); see C08/C15" % (ra.describe(), rb.describe()))
         return res
@@ -343,6 +345,8 @@ def run(chk, tier, scale=1.0):
         jobs.append(dict(build=b, seed=rng.randrange(1 << 30), nreloads=2, nprobes=14, npre=rng.choice([0, 2, 4]), directed=DIRECTED[i % len(DIRECTED)]))
     for r in vcommon.pmap(_worker, jobs):
         chk.add_case(r["hash"], r["nontrivial"])
+        if r.get("sample") and r["nontrivial"]:
+            chk.sample(r["sample"], limit=2)
         edits = r["stats"].pop("edits")
         chk.merge_counts(r["stats"])
         for k, v in edits.items():
